@@ -482,7 +482,7 @@ pub fn check(tier: Tier) -> i32 {
 
     ctx.finish(
         "exploration",
-        "in-process through fclones' public ReportWriter / open_report. Tier A (bounded-exhaustive): every string of <=3 (quick) / <=4 (thorough) symbols over the 20-symbol hostile alphabet as the first, middle and last component of a path, as a command argument and as a base-dir component, written and read back in the text and JSON formats. Tier B (random, shrinking): reports with 0-6 groups (plus occasionally a group of 1023..2050 files), arbitrary non-NUL path bytes, 1-5 arguments, arbitrary ms timestamps and offsets, statistics, 16/32/64-byte hashes; a quarter of them are additionally cut at every byte offset (reports <=1500 B) or at all line boundaries +-2 and a stride (larger): the reader must return only original groups that end before the cut and must not report a clean end inside a group. Oracle: read(write(r)) == r field by field (paths and arguments compared as bytes, timestamp at ms). Tier C (end to end): the text and JSON reports of `fclones group` on generated trees with hostile names are cut at every line boundary +-2 and a stride and piped to `fclones remove --dry-run`: the printed script may name only files of groups that are complete before the cut, and a cut strictly inside a group must give a non-zero exit status. Non-trivial = a path, argument or base dir contains a byte outside [A-Za-z0-9/._-].",
+        "in-process through fclones' public ReportWriter / open_report. Tier A (bounded-exhaustive): every string of <=3 (quick) / <=4 (thorough) symbols over the 20-symbol hostile alphabet as the first, middle and last component of a path, as a command argument and as a base-dir component, written and read back in the text and JSON formats. Tier B (random, shrinking): reports with 0-6 groups (plus occasionally a group of 1023..2050 files), arbitrary non-NUL path bytes, 1-5 arguments, arbitrary ms timestamps and offsets, statistics, 16/32/64-byte hashes; a quarter of them are additionally cut at every byte offset (reports <=1500 B) or at all line boundaries +-2 and a stride (larger): the reader must return only original groups that end before the cut and must not report a clean end inside a group; every cut is tried twice, the stream ending with EOF and with a read error (EIO). Oracle: read(write(r)) == r field by field (paths and arguments compared as bytes, timestamp at ms). Tier C (end to end): the text and JSON reports of `fclones group` on generated trees with hostile names are cut at every line boundary +-2 and a stride and piped to `fclones remove --dry-run`: the printed script may name only files of groups that are complete before the cut, and a cut strictly inside a group must give a non-zero exit status. Non-trivial = a path, argument or base dir contains a byte outside [A-Za-z0-9/._-].",
         &["paths are absolute, components are non-empty, NUL-free and not . or ..; arguments are non-empty and NUL-free", "a cut that removes only the final newline of the last path line may be accepted (all data present)"],
     )
 }
